@@ -6,7 +6,7 @@
    Spec: PcpRound.faithful (names, structure, bytes; with -p also permission bits and mtime).
    Proofs: Pcp/FsAlgebra.v FsForward.v PcpRecords.v PcpStep.v PcpEncode.v PcpRound.v PcpCopyFacts.v PcpCopyWitness.v. *)
 From PV Require Import Pcp.FsModel Pcp.PcpSink Pcp.PcpClient Pcp.FsFacts Pcp.FsForward Pcp.PcpClientFacts
-  Pcp.PcpEncode Pcp.PcpRound Pcp.PcpCopyFacts Pcp.PcpCopyWitness.
+  Pcp.PcpEncode Pcp.PcpRound Pcp.PcpCopyFacts Pcp.PcpCopyLink Pcp.PcpCopyWitness.
 Local Open Scope N_scope.
 
 (* The mode field: "%04o" of the sender and the scanner of the receiver are inverse on all 4096 modes. *)
@@ -65,6 +65,21 @@ Theorem C11_roundtrip : forall cfg c fs (l : list src) dp t dm dt de,
     set_at fs dp (Dir dm dt' (de ++ copies)) = Some (w_fs w').
 Proof. exact copy_roundtrip. Qed.
 Print Assumptions C11_roundtrip.
+
+(* The composed function the check runs against the real pdcp (PcpClient.copy: the stream for all-Ack answers
+   is tried, accepted iff the sender reproduces it from the receiver's actual answers, else the iterated exchange)
+   is, on the inputs of C11_roundtrip, the receiver's run on the encoded forest. *)
+Theorem C11_check_model : forall cfg c fs (l : list src) dp t dm dt de,
+  cc_suffix c = None -> cc_preserve c = c_preserve cfg ->
+  (forall pre k n, In (pre, k, n) l ->
+     lookup (cc_fs c) (cc_cwd c ++ pre ++ [k]) = Some n /\ (pre <> [] \/ beq k sentinel = false)) ->
+  wf_src_list cfg (map src_entry l) -> names_distinct (map src_entry l) ->
+  fits_list (length (c_dest cfg)) (map src_entry l) ->
+  (forall k v, In (k, v) (map src_entry l) -> assoc k de = None) ->
+  resolve fs (c_cwd cfg) (c_dest cfg) = ROk dp t -> lookup fs dp = Some (Dir dm dt de) ->
+  copy cfg fs c (top_files l) = sink cfg fs (encode_list (c_preserve cfg) (map src_entry l)).
+Proof. exact copy_is_sink_encode. Qed.
+Print Assumptions C11_check_model.
 
 (* Without the chmod after mkdir (the code before fixes/C11-preserve-dir-mode.diff) -p does not
    reproduce the permission bits of a new directory: 02755 arrives as 0755. *)
